@@ -54,7 +54,7 @@ type c08 struct{}
 func (c08) ID() string { return "C08" }
 func (c08) Runs(tier string) int {
 	if tier == "thorough" {
-		return 60000
+		return 400000
 	}
 	return 2400
 }
